@@ -180,10 +180,14 @@ func TestWorker(t *testing.T) {
 				seenV[v.Key()] = true
 				fv := FoundViolation{Violation: v, Seed: sc.Seed, Idx: idx}
 				if replayDir != "" {
-					msc, mtape, mres, mv := minimise(t, pd, sc, res.Out.Tape, v, 15*time.Second)
-					fv.Violation = mv
-					fv.Minimised = true
-					fv.Replay = writeReplay(replayDir, pd, msc, mtape, mres, mv)
+					if os.Getenv("VERIF_NOMIN") != "" { // debugging aid: keep the scenario as generated
+						fv.Replay = writeReplay(replayDir, pd, sc, res.Out.Tape, res, v)
+					} else {
+						msc, mtape, mres, mv := minimise(t, pd, sc, res.Out.Tape, v, 15*time.Second)
+						fv.Violation = mv
+						fv.Minimised = true
+						fv.Replay = writeReplay(replayDir, pd, msc, mtape, mres, mv)
+					}
 				}
 				out.Violations = append(out.Violations, fv)
 			}
